@@ -244,3 +244,108 @@ func sortedStrings(m map[string]bool) []string {
 	sort.Strings(out)
 	return out
 }
+
+// */match-keys-checked-wherever-collected: the duplicate-key check of a match table covers every match table.
+//
+// A match field is built in one place (the routine that makes the MatchFieldAttribute from the parse tree) and enters a field list
+// in two: the collector of a packet body and the collector of an inline object's body, which the tree walk re-enters. The check
+// that a key occurs once (a set keyed by MatchPair.Key, C12/namespace judges its shape) sees every table when it runs where the
+// table is built; moved into the linking loop of *one* collector it leaves the tables of the other collector unchecked - `match`
+// inside an inline object then accepts `1 : A, 1 : B`, and the dispatch the decoders emit for that table is whatever the target
+// language makes of a duplicate arm. Decided: a routine that holds the key set is reached (three call levels) from a routine that
+// constructs a MatchFieldAttribute, or from every field collector of the parse phase.
+func matchKeysCheckedWhereverCollected(w *World, r *Report, prop string) {
+	rule := prop + "/match-keys-checked-wherever-collected"
+	phase := parsePhaseFuncs(w)
+	var checkers, builders []*ssa.Function
+	for _, fn := range phase {
+		if isGeneratorFunc(fn) {
+			continue
+		}
+		holds, builds := false, false
+		forEachInstr(fn, func(_ *ssa.BasicBlock, ins ssa.Instruction) {
+			switch x := ins.(type) {
+			case *ssa.MapUpdate:
+				if pairFieldOf(x.Key) == "Key" {
+					holds = true
+				}
+			case *ssa.Alloc:
+				if pt, ok := x.Type().(*types.Pointer); ok && modelTypeName(pt.Elem()) == "MatchFieldAttribute" {
+					if _, isStruct := pt.Elem().Underlying().(*types.Struct); isStruct {
+						builds = true
+					}
+				}
+			}
+		})
+		if holds {
+			checkers = append(checkers, fn)
+		}
+		if builds {
+			builders = append(builders, fn)
+		}
+	}
+	key := "the duplicate-key check runs for every match table"
+	if len(checkers) == 0 {
+		// C12/namespace reports the missing check; nothing to place
+		r.note("%s: no routine keeps a set of match keys", rule)
+		return
+	}
+	reaches := func(from *ssa.Function, targets []*ssa.Function) bool {
+		tset := map[*ssa.Function]bool{}
+		for _, t := range targets {
+			tset[t] = true
+		}
+		seen := map[*ssa.Function]bool{}
+		var walk func(f *ssa.Function, d int) bool
+		walk = func(f *ssa.Function, d int) bool {
+			if f == nil || seen[f] || d > 3 || f.Blocks == nil {
+				return false
+			}
+			seen[f] = true
+			if tset[f] {
+				return true
+			}
+			hit := false
+			forEachInstr(f, func(_ *ssa.BasicBlock, ins ssa.Instruction) {
+				if hit {
+					return
+				}
+				c, ok := ins.(ssa.CallInstruction)
+				if !ok {
+					return
+				}
+				for _, g := range calleesOfAll(c) {
+					if g != nil && w.isSubjectFunc(g) && !isGeneratorFunc(g) && walk(g, d+1) {
+						hit = true
+						return
+					}
+				}
+			})
+			return hit
+		}
+		return walk(from, 0)
+	}
+	for _, b := range builders {
+		if reaches(b, checkers) {
+			r.pass(rule, key, w.pos(b.Pos()), "checked where the table is built: "+fnKey(b))
+			return
+		}
+	}
+	var uncovered []string
+	cols := fieldCollectors(w)
+	for _, c := range cols {
+		if !reaches(c, checkers) {
+			uncovered = append(uncovered, fnKey(c))
+		}
+	}
+	pos := w.pos(checkers[0].Pos())
+	switch {
+	case len(cols) == 0:
+		r.fail(rule, key, pos, "a set of match keys is kept in "+fnKey(checkers[0])+", but neither the routine that builds a match table nor any field collector reaches it")
+	case len(uncovered) > 0:
+		sort.Strings(uncovered)
+		r.fail(rule, key, pos, "the duplicate-key check ("+fnKey(checkers[0])+") is not run where match tables are built, and of the routines that collect declared fields "+strings.Join(uncovered, ", ")+" does not reach it: a match table that enters a field list there accepts the same key twice")
+	default:
+		r.pass(rule, key, pos, fmt.Sprintf("every field collector (%d) reaches the check", len(cols)))
+	}
+}
